@@ -1,6 +1,6 @@
 SPECIFICATION Spec
 CONSTANTS
-  MaxOps = 3
+  MaxOps = 2
 INVARIANT TypeOK
 INVARIANT InvPerClass
 INVARIANT InvExplicitWins
